@@ -106,3 +106,25 @@ package multiplex
 //@     assert(samePayloadAead(o, g, f))
 //@     assert(samePayloadAsBefore(g, f))
 //@ }
+
+// MakeObfuscator establishes cipherOK (assumed library facts: AES-GCM and ChaCha20-Poly1305 have a
+// 16-byte tag and a 12-byte nonce) and copies the key.
+//@ func MakeObfuscator
+//@   ensures unknownMethod: encryptionMethod > 3 ==> err != nil
+//@   ensures knownMethod: encryptionMethod <= 3 ==> err == nil
+//@   ensures plain: err == nil && encryptionMethod == 0 ==> o.payloadCipher == nil
+//@   ensures aead: err == nil && encryptionMethod != 0 ==> o.payloadCipher != nil && uf("aead_overhead", uf("aead_sem", o.payloadCipher)) == 16 && uf("aead_noncesize", uf("aead_sem", o.payloadCipher)) == 12
+//@   ensures key: o.sessionKey == sessionKey
+
+// per-frame payload maximum derived from the on-wire limit (C04/C10)
+//@ func MakeSession
+//@   ensures fresh(ret0)
+//@   ensures limit: ret0.MsgOnWireSizeLimit == ite(config.MsgOnWireSizeLimit <= 0, 16640, config.MsgOnWireSizeLimit)
+//@   ensures unit: ret0.maxStreamUnitWrite == ret0.MsgOnWireSizeLimit - 14 - 255 && ret0.streamSendBufferSize == ret0.MsgOnWireSizeLimit && ret0.connReceiveBufferSize == 20480
+//@   ensures copied: ret0.id == id && ret0.Unordered == config.Unordered && ret0.Singleplex == config.Singleplex && ret0.sessionKey == config.sessionKey && ret0.payloadCipher == config.payloadCipher
+//@   ensures valve: config.Valve != nil ==> ret0.Valve == config.Valve
+//@   ensures open: ret0.closed == 0 && ret0.nextStreamID == 1 && ret0.activeStreamCount == 0 && ret0.sb != nil
+
+//@ func makeSwitchboard
+//@   requires sesh != nil
+//@   ensures fresh(ret0) && ret0.session == sesh && ret0.valve == sesh.Valve && ret0.strategy == uniformSpread && ret0.connsCount == 0 && ret0.broken == 0
